@@ -137,8 +137,12 @@ class View:
 class Loop:
     """Symbolic loop-context pre-state satisfying RI (or the blank object handed to __init__)."""
 
-    def __init__(self, st: State, cls, it="sync", cached=False, last="missing", init=False):
+    def __init__(self, st: State, cls, it="sync", cached=False, last="missing", init=False, sized_iterator=False):
         self.cls, self.it, self.cached, self.last, self.init = cls, it, cached, last, init
+        # the iterable is itself an iterator (iter(x) is x).  If such an object has a size at all, nothing says whether
+        # len() counts the items it started with or the items that are left: both conventions are modelled
+        self.is_iterator = bool(sized_iterator)
+        self.len_remaining = sym("len_counts_remaining", "bool")
         self.asynchronous = cls is R.AsyncLoopContext
         A_ = z3.ArraySort(I_, Obj)
         self.S, self.nS, self.hist = z3.Const("S", A_), z3.Int("nS"), z3.Const("hist", A_)
@@ -277,11 +281,24 @@ def install(I, vc):
             return None
         out = []
         for s, b in I_.fork_bool(st, L.sized.t):
-            if b:
+            if b and L.is_iterator and not L.init:
+                # a sized iterator: the number of items it started with, or the number that is left NOW
+                left = L.nS - to_term(s.get(L.hiter).cursor, "int")
+                out.append((s, Sym(z3.If(L.len_remaining.t, left, L.N), "int")))
+            elif b:
                 out.append((s, Sym(L.N, "int")))
             else:
                 out.append((s, Raised(Exc(TypeError, ("object has no len()",), origin=ln(node)))))
         return out
+
+    import collections.abc as cabc
+
+    def isinstance_obj(I_, st, args, kwargs, node):
+        # isinstance(iterable, Iterator / AsyncIterator): whether the iterable is its own iterator
+        v, cl = args
+        if is_sym(v, vc.L.iterable) and cl and all(c in (cabc.Iterator, cabc.AsyncIterator) for c in cl):
+            return [(st, vc.L.is_iterator)]
+        return None
 
     def call_obj(I_, st, args, kwargs, node):
         L = vc.L
@@ -392,6 +409,7 @@ def install(I, vc):
         return orig_eq(st, a, b, node)
 
     I.specs["len_obj"] = len_obj
+    I.specs["isinstance_obj"] = isinstance_obj
     I.specs["call_obj"] = call_obj
     I.specs["iter_obj"] = iter_obj
     I.specs["getattr_obj"] = getattr_obj
@@ -411,7 +429,8 @@ class LC(VC):
     timeout_quick = 20000
     stop = StopIteration
 
-    def __init__(self, cls=None, it=None, cached=False, last="missing"):
+    def __init__(self, cls=None, it=None, cached=False, last="missing", sized_iterator=False):
+        self.sized_iterator = sized_iterator
         self.cls_name = cls or self.owner
         self.it = it or ("sync" if self.cls_name == "LoopContext" else "native")
         self.cached, self.last = cached, last
@@ -425,13 +444,15 @@ class LC(VC):
             tags.append("length_cached")
         if last != "missing":
             tags.append("called_before")
+        if sized_iterator:
+            tags.append("sized_iterator")
         VC.__init__(self, "C07", f"C07.{self.owner}.{self.method}" + (f"[{','.join(tags)}]" if tags else ""))
 
     def configure(self, I):
         install(I, self)
 
     def make(self, st, init=False):
-        self.L = Loop(st, getattr(R, self.cls_name), self.it, self.cached, self.last, init=init)
+        self.L = Loop(st, getattr(R, self.cls_name), self.it, self.cached, self.last, init=init, sized_iterator=self.sized_iterator)
         return self.L
 
     def setup(self, I, st):
@@ -463,6 +484,8 @@ class LC(VC):
         w = {"owner": self.owner, "cls": self.cls_name, "method": self.method, "it": self.it, "cached": self.cached,
              "i0": i0, "peeked": peeked, "N": i0 + 1 + int(peeked) + rest, "sized": bool(mv(L.sized.t)),
              "has_aiter": bool(mv(L.has_aiter.t)), "depth0": mv(L.depth0.t), "recurse": mv(L.recurse.t == NONE) is not True}
+        if L.is_iterator:
+            w["is_iterator"], w["len_remaining"] = True, bool(mv(L.len_remaining.t))
         self.extra_witness(model, w)
         return w
 
@@ -975,6 +998,62 @@ class _SizedAIterable(_AIterable):
         return len(self._xs)
 
 
+class _Iter:
+    """An iterator (iter(x) is x) over `rest`, the items that are still to come of `total` items."""
+
+    def __init__(self, rest, total):
+        self._left, self._total = list(rest), total
+
+    def __iter__(self):
+        return self
+
+    def __next__(self):
+        if not self._left:
+            raise StopIteration
+        return self._left.pop(0)
+
+
+class _SizedIterRemaining(_Iter):
+    def __len__(self):
+        return len(self._left)
+
+
+class _SizedIterTotal(_Iter):
+    def __len__(self):
+        return self._total
+
+
+class _AIter:
+    def __init__(self, rest, total):
+        self._left, self._total = list(rest), total
+
+    def __aiter__(self):
+        return self
+
+    async def __anext__(self):
+        if not self._left:
+            raise StopAsyncIteration
+        return self._left.pop(0)
+
+
+class _SizedAIterRemaining(_AIter):
+    def __len__(self):
+        return len(self._left)
+
+
+class _SizedAIterTotal(_AIter):
+    def __len__(self):
+        return self._total
+
+
+def _own_iterator(rest, total, asynchronous_native, sized, remaining):
+    if asynchronous_native:
+        cls = _AIter if not sized else (_SizedAIterRemaining if remaining else _SizedAIterTotal)
+    else:
+        cls = _Iter if not sized else (_SizedIterRemaining if remaining else _SizedIterTotal)
+    return cls(rest, total)
+
+
 def _drive(x):
     """A7: run an awaitable that never really suspends."""
     if inspect.isawaitable(x):
@@ -1052,7 +1131,12 @@ def check_state(w):
     ctx._iterable = iterable
     rest = items[drawn:]
     kind = w.get("it", "sync")
-    if not asynchronous:
+    if w.get("is_iterator"):
+        # the iterable is its own iterator, possibly with a size (remaining items or the constant total)
+        own = _own_iterator(rest, N, asynchronous and kind != "wrapped", sized, bool(w.get("len_remaining")))
+        ctx._iterable = own
+        ctx._iterator = AU._IteratorToAsyncIterator(own) if (asynchronous and kind == "wrapped") else own
+    elif not asynchronous:
         ctx._iterator = iter(rest)
     elif kind == "wrapped":
         ctx._iterator = AU._IteratorToAsyncIterator(iter(rest))
@@ -1132,7 +1216,9 @@ def check_state(w):
     st_want = (exp_i0, items[exp_i0 + 1:], items[exp_i0] if exp_i0 >= 0 else None, items[exp_i0 - 1] if exp_i0 >= 1 else None, True, True, exp_last)
     bad = got != want or st_got != st_want
     desc = (f"{cls.__name__}.{method} at index0={i0} of {N} items (peeked={peeked}, length cached={bool(w.get('cached'))}, sized={sized}, "
-            f"iterator={kind}): real={got!r} abstract loop={want!r}; state after (index0, items still to come, current, previous, length ok, "
+            f"iterator={kind}" + (f", the iterable is its own iterator and len() counts {'the items that are left' if w.get('len_remaining') else 'all items'}"
+                                  if w.get("is_iterator") and sized else ", the iterable is its own iterator" if w.get("is_iterator") else "") +
+            f"): real={got!r} abstract loop={want!r}; state after (index0, items still to come, current, previous, length ok, "
             f"frame ok, last changed)={st_got!r} expected={st_want!r}")
     return (bad, desc)
 
@@ -1238,6 +1324,17 @@ class Group(Task):
     def replay(self, w):
         return replay_loop(w)
 
+    def finding_key(self, res):
+        """identifies the failing input class: the known one is exactly `length` first asked, after items were taken, of a
+        sized iterator whose len() counts the items that are left; any other failing state has a key of its own"""
+        w = res.witness or {}
+        if not isinstance(w, dict):
+            return str(w)[:120]
+        taken = int(w.get("i0", -1)) + 1 + int(bool(w.get("peeked")))
+        if (w.get("method") == "length" and w.get("is_iterator") and w.get("sized") and w.get("len_remaining") and not w.get("cached") and taken > 0):
+            return "sized_iterator_len_counts_items_left"
+        return ",".join(f"{k}={w[k]}" for k in sorted(w) if k not in ("N", "i0", "depth0"))[:200]
+
 
 def both(k, **kw):
     return [k("AsyncLoopContext", it="native", **kw), k("AsyncLoopContext", it="wrapped", **kw)]
@@ -1251,6 +1348,8 @@ TASKS = [
     Group("C07.nextitem", [NextItem()] + both(ANextItem)),
     Group("C07.length", [Length(), Length(cached=True), Len()]),
     Group("C07.async.length", both(ALength) + [ALength("AsyncLoopContext", cached=True)]),
+    # the iterable is its own iterator, with or without a size; a size may count all items or the items that are left
+    Group("C07.length.sized_iterator", [Length(sized_iterator=True)] + both(ALength, sized_iterator=True)),
     Group("C07.revindex", [RevIndex(), RevIndex(cached=True), RevIndex0(), RevIndex0(cached=True)]),
     Group("C07.async.revindex", both(ARevIndex) + both(ARevIndex0)),
     Group("C07.attrs", [Index(), Depth(), First(), PrevItem(), Iter(), AIter(), Index("AsyncLoopContext"), First("AsyncLoopContext"),
